@@ -337,13 +337,23 @@ def viterbi(ctx):
             b, t, e = upd
             other = e[3] if (e[2][0] == "binop" and e[2][1] == "Add") else e[2]
             pl = None
+            pair = None
             o = fa.origin(t["op"])
             if o[0] == "rv" and o[1]["k"] == "binop":
                 cand = o[1]["b"] if (e[2][0] == "binop" and e[2][1] == "Add") else o[1]["a"]
                 r = fa.origin(cand)
                 if r[0] == "place" and r[1].root[0] == "local" and not r[1].proj:
                     pl = r[1].root[1]
+                elif r[0] == "place" and r[1].root[0] == "local" and len(r[1].proj) == 1 and \
+                        str(r[1].proj[0])[:1] == "#" and str(r[1].proj[0])[1:].isdigit():
+                    pair = (r[1].root[1], int(str(r[1].proj[0])[1:]))      # `best.1` of a pair (index, cost)
             inits = []
+            if pl is None and pair is not None:
+                for d in fa.defs().get(pair[0], []):
+                    if d[2] == "assign" and d[3]["k"] == "agg" and len(d[3]["ops"]) > pair[1]:
+                        k = op_const(d[3]["ops"][pair[1]])
+                        if k is not None and "int" in k:
+                            inits.append(k["int"])
             if pl is not None:
                 for d in fa.defs().get(pl, []):
                     if d[2] == "assign" and d[3]["k"] == "use":
